@@ -27,6 +27,34 @@ from lib import queuecheck as Q
 PTOK = "ptok-c01"
 ATOK = "atok-c01"
 FAN_TARGETS = ["http://127.0.0.1:1/a", "http://127.0.0.1:1/b", "http://127.0.0.1:1/c"]
+# a route behind forward auth whose callout sees only the first 64 bytes of a body (body_limit): what is stored is the whole body
+FWD_TARGETS = ["http://127.0.0.1:1/f1", "http://127.0.0.1:1/f2"]
+ROUTE_TARGETS = {"pull": ["pull"], "fan": FAN_TARGETS, "fwd": FWD_TARGETS}
+FWD_PORT = [0]
+
+
+def start_forward_auth():
+    """a forward-auth endpoint that approves every request (one per check run, loopback)"""
+    import http.server
+    import threading
+
+    class H(http.server.BaseHTTPRequestHandler):
+        def do_POST(self):
+            n = int(self.headers.get("Content-Length") or 0)
+            if n:
+                self.rfile.read(n)
+            self.send_response(200)
+            self.send_header("Content-Length", "0")
+            self.end_headers()
+        do_GET = do_POST
+
+        def log_message(self, *a):
+            pass
+    srv = http.server.ThreadingHTTPServer(("127.0.0.1", 0), H)
+    srv.daemon_threads = True
+    threading.Thread(target=srv.serve_forever, daemon=True).start()
+    FWD_PORT[0] = srv.server_address[1]
+    return srv
 
 
 # retention as an operator would tighten it: a DLQ of at most two messages, pruned every second (age rules at their defaults)
@@ -35,7 +63,9 @@ RETENTION = 'queue_retention {\n  prune_interval 1s\n}\ndlq_retention {\n  max_d
 
 def hookaidofile(base, extra=RETENTION):
     t = "\n".join('  deliver "%s" {\n    retry exponential max 3 base 1h cap 1h jitter 0\n    timeout 1s\n  }' % u for u in FAN_TARGETS)
-    return extra + ('ingress {\n  listen "127.0.0.1:%d"\n}\npull_api {\n  listen "127.0.0.1:%d"\n  auth token "raw:%s"\n}\n'
+    tf = "\n".join('  deliver "%s" {\n    retry exponential max 3 base 1h cap 1h jitter 0\n    timeout 1s\n  }' % u for u in FWD_TARGETS)
+    fwd = ('/hooks/fwd {\n  auth forward "http://127.0.0.1:%d/check" {\n    timeout 2s\n    body_limit 64\n  }\n%s\n}\n' % (FWD_PORT[0], tf)) if FWD_PORT[0] else ""
+    return extra + fwd + ('ingress {\n  listen "127.0.0.1:%d"\n}\npull_api {\n  listen "127.0.0.1:%d"\n  auth token "raw:%s"\n}\n'
             'admin_api {\n  listen "127.0.0.1:%d"\n  auth token "raw:%s"\n}\n'
             'defaults {\n  egress {\n    https_only off\n    dns_rebind_protection off\n  }\n}\n'
             '/hooks/pull {\n  max_body 1kb\n  pull { path /pull/p }\n}\n/hooks/fan {\n%s\n}\n') % (base, base + 1, PTOK, base + 2, ATOK, t)
@@ -72,7 +102,7 @@ def gen_workload(rng):
         elif r < 0.22:
             steps.append({"op": "ingress", "route": "pull", "marker": "m%d" % ctr})
         elif r < 0.40:
-            steps.append({"op": "ingress", "route": "fan", "marker": "m%d" % ctr})
+            steps.append({"op": "ingress", "route": rng.choice(["fan", "fan", "fwd"]), "marker": "m%d" % ctr})
         elif r < 0.55:
             k = rng.choice([1, 2, 3])
             steps.append({"op": "publish", "items": [{"id": "pub-%d-%d" % (ctr, j), "marker": "m%d_%d" % (ctr, j)} for j in range(k)]})
@@ -415,7 +445,7 @@ def judge(workload, out):
     sent = {}        # marker -> (route, [targets])
     for st in workload:
         if st["op"] == "ingress":
-            sent[st["marker"]] = ("/hooks/" + st["route"], ["pull"] if st["route"] == "pull" else FAN_TARGETS)
+            sent[st["marker"]] = ("/hooks/" + st["route"], ROUTE_TARGETS[st["route"]])
         elif st["op"] == "publish":
             for it in st["items"]:
                 sent[it["marker"]] = ("/hooks/pull", ["pull"])
@@ -455,9 +485,9 @@ def judge(workload, out):
                     state[st["marker"]] = "queued"
                 else:
                     have = set(m["target"] for m in by_marker.get(st["marker"], []))
-                    if have != set(FAN_TARGETS):
+                    if have != set(ROUTE_TARGETS[st["route"]]):
                         probs.append(("acked-lost:ingress-fanout", "ingress answered 202 for %s but after the crash only targets %r are stored (want all of %r)"
-                                      % (st["marker"], sorted(have), FAN_TARGETS)))
+                                      % (st["marker"], sorted(have), ROUTE_TARGETS[st["route"]])))
         elif st["op"] == "publish":
             if s == 200:
                 for it in st["items"]:
@@ -632,6 +662,7 @@ def main(ctx, replay):
         C.report(ctx, "crashpoints", err, {"kind": "obligation", "no_failing_input_found": True, "names": "crash-point rewriter / build", "detail": err})
         return C.conclude(ctx, info, C.proof_coverage(info, "C01"), [])
     hk, points = built
+    fwd_srv = start_forward_auth()
     root = os.path.join(ctx.scratch, "runs")
     os.makedirs(root, exist_ok=True)
     n_workloads = 3 if ctx.tier == "quick" else 16
@@ -642,6 +673,10 @@ def main(ctx, replay):
                       {"op": "stalebatch", "kind": "ack"}, {"op": "ingress", "route": "pull", "marker": "s2"},
                       {"op": "stalebatch", "kind": "nack"}, {"op": "publish", "items": [{"id": "pub-s-0", "marker": "s3_0"}, {"id": "pub-s-1", "marker": "s3_1"}]},
                       {"op": "ingress", "route": "fan", "marker": "s4"}, {"op": "ack", "ref": [0, 0]}, {"op": "ingress", "route": "pull", "marker": "s5"}])
+    # a fixed workload: a route behind forward auth with a body_limit far below the bodies it receives, between ordinary traffic
+    workloads.append([{"op": "ingress", "route": "fwd", "marker": "f1"}, {"op": "ingress", "route": "pull", "marker": "f2"},
+                      {"op": "ingress", "route": "fwd", "marker": "c3"}, {"op": "dequeue", "batch": 1}, {"op": "ingress", "route": "fwd", "marker": "f4"},
+                      {"op": "ack", "ref": [0, 0]}, {"op": "ingress", "route": "fan", "marker": "f5"}])
     # a fixed workload: streamed bodies (no Content-Length) within and over the route's max_body between ordinary traffic
     workloads.append([{"op": "ingress", "route": "pull", "marker": "c1"}, {"op": "ingress", "route": "pull", "marker": "B2"},
                       {"op": "ingress", "route": "pull", "marker": "t3"}, {"op": "dequeue", "batch": 3}, {"op": "ingress", "route": "pull", "marker": "B4"},
